@@ -21,7 +21,8 @@ RULE = (
     "connection; a third driver of the same server snoops DEV with BLOBs enabled (in-process snooping client, registered before the "
     "network clients) and must hold the same payload; 'burst': 2-3 BLOBs (incl. 70 kB and 150 kB, i.e. messages > 64 KiB) and a text update published back-to-back "
     "while every drain() of the fake transports suspends for one loop iteration (back-pressure): a raw peer with policy Also must "
-    "receive every element whole, in order, bit-exact. Oracle: observers that enabled BLOBs hold identical bytes, format and length; the others' inbound byte stream "
+    "receive every element whole, in order, bit-exact; 'refill': one BLOB object around a bytearray that is refilled in place and "
+    "published / uploaded again (same and different lengths). Oracle: observers that enabled BLOBs hold identical bytes, format and length; the others' inbound byte stream "
     "contains no setBLOBVector and their mirror no payload; an upload reaches the driver element identically; a sentinel text update "
     "sent after the BLOB reaches every client whose policy admits text (nothing stalls); every Buffer.process call terminates. "
     "Non-trivial: payload non-empty and the message is longer than one 1024-byte read, or some observer has a policy other than "
@@ -306,6 +307,46 @@ def run_burst(case):
             st_.close()
 
 
+def run_refill(case):
+    """A driver (and a client) that keeps ONE BLOB object around a preallocated frame buffer, refills the buffer in place and
+    publishes (uploads) the same object again: what arrives must be what the buffer holds at that moment.
+    case: {"lens": [n1, n2, ...] (payload of each publication), "frags": {...}, "dir": "down"|"up"}"""
+    from indi.device import values
+
+    st_ = None
+    try:
+        st_ = stack.Stack([session.SIMPLE_SPEC, session.SECOND_SPEC], case.get("frags"))
+        drv, client = st_.dep.drivers[0], st_.client
+        frame = bytearray()
+        blob = values.BLOB(frame, ".bin")
+        where = f"refill dir={case['dir']} lens={case['lens']}"
+        for i, n in enumerate(case["lens"]):
+            frame[:] = payload(n, i + 1)  # in place: same bytearray, same BLOB object
+            want = bytes(frame)
+            if case["dir"] == "down":
+                st_.in_loop(lambda: setattr(drv.g.bl.a, "value", blob))
+                got = client["DEV"]["BLB"]["A"].value
+            else:
+                client["DEV"]["BLB"]["A"].value = blob
+                st_.in_loop(lambda: client["DEV"]["BLB"].submit())
+                got = drv.g.bl.a._value
+            gb = b"" if (got is None or isinstance(got, str)) else bytes(got.binary)
+            if gb != want:
+                same_as_before = i > 0 and gb == payload(case["lens"][i - 1], i)
+                raise Failure(
+                    f"refill:{case['dir']}:{'previous-payload' if same_as_before else 'payload-differs'}",
+                    f"{where}: publication {i} carried {len(gb)} bytes ({'the PREVIOUS frame' if same_as_before else 'not the frame'}), the buffer holds {len(want)}",
+                )
+        return True
+    finally:
+        if st_ is not None:
+            st_.close()
+
+
+def check_refill(case):
+    return Info(nontrivial=run_refill(case) and len(case["lens"]) >= 2, labels=[case["dir"], "same-length" if len(set(case["lens"])) == 1 else "varying-length"])
+
+
 def check_burst(case):
     return Info(nontrivial=run_burst(case), labels=[f"burst-of-{len(case['lens'])}", "max>64KiB-message" if max(case["lens"]) > 50_000 else "small"])
 
@@ -344,7 +385,7 @@ def check_sizes(case):
     return Info(n_eval=n, n_nontrivial=nt, label_counts={case["dir"]: n})
 
 
-SUBCHECKS = {"sizes": check_sizes, "one": check_one, "matrix": check_one, "large": check_one, "burst": check_burst}
+SUBCHECKS = {"sizes": check_sizes, "one": check_one, "matrix": check_one, "large": check_one, "burst": check_burst, "refill": check_refill}
 
 FRAGSETS = [
     {"c2s": [1024], "s2c": [1024], "b2s": [1024], "s2b": [1024]},
@@ -447,6 +488,8 @@ def run(ctx):
     # a backlog of several MB queued at once (more than any plausible per-connection buffer limit)
     bursts.append({"lens": [800_000] * 8, "frags": {"c2s": [1024], "s2c": [65536], "b2s": [1024], "s2b": [65536]}})
     ctx.each("burst", bursts, check_burst, stop_after=2, timeout=300)
+    refills = [{"dir": d, "lens": lens, "frags": FRAGSETS[0]} for d in ("down", "up") for lens in ([40, 40, 40], [700, 700], [30, 900, 30], [0, 12, 12])]
+    ctx.each("refill", refills, check_refill, stop_after=2, timeout=300)
     if ctx.tier == "thorough":
         big = [{"dir": "down", "len": L, "seed": 3, "fmt": ".fits", "frags": f, "observers": [{"type": "raw", "policy": "Only", "frag": [1024]}, {"type": "raw", "policy": None, "frag": [1024]}]}
                for L in (100_000, 250_000, 1_000_000, 2_000_000) for f in (FRAGSETS[0], {"c2s": [1024], "s2c": [1024], "b2s": [1024], "s2b": [4096, 1, 1024]})]
